@@ -4,7 +4,12 @@ use crate::push::instructions::InstructionCache;
 use crate::push::item::Item;
 use crate::push::state::PushState;
 use crate::push::vector::{BoolVector, FloatVector, IntVector};
+#[cfg(feature = "verif")]
+use crate::push::verif_seam::rand_shim as rand;
+#[cfg(not(feature = "verif"))]
 use names::Generator;
+#[cfg(feature = "verif")]
+use crate::push::verif_seam::names_shim::Generator;
 use rand::distributions::{Distribution, Standard, Uniform};
 use rand::Rng;
 use rand_distr::Normal;
